@@ -310,12 +310,189 @@ def check_fixed(run, E):
         yield ck
 
 
+# ---- bootstrap-wrapped cross-validation --------------------------------------------------------------------------
+CVS = 'rsatoolbox.inference.crossvalsets.'
+NC = 'rsatoolbox.inference.noise_ceiling.'
+
+
+def _havoc_sets(E, sample, pd, rd, k_pattern, k_rdm, k=0, idxs=None):
+    """the (train, test, ceil) lists of [RDMs, pattern index] pairs of the k-th sets_k_fold call: any outcome (its own contract is C05)"""
+    fv = E.find_function(CVS + 'sets_k_fold')
+    bound = E.bind_args(fv.node, [sample], dict(pattern_descriptor=pd, rdm_descriptor=rd, k_pattern=k_pattern, k_rdm=k_rdm,
+                                                random=True), module=fv.module)
+    base = E.havoc(CVS + 'sets_k_fold', [bound[q] for q in bound], 'val', k=k, idxs=idxs)
+    out = []
+    for which in range(3):
+        lst = E.app('getitem', [base, which])
+        n = E.app('len', [lst], 'int')
+        E.fact(n.z >= 0)
+
+        def elem(i, lst=lst):
+            pair = E.app('getitem', [lst, SV(i, 'int')])
+            return SeqV(items=[E.app('getitem', [pair, 0], 'obj', cls='RDMs'), E.app('getitem', [pair, 1], tag='ndarray')], kind='list')
+        out.append(SeqV(length=n.z, elem=elem, kind='list', term=lst.z))
+    return tuple(out)
+
+
+def engine_cv(run):
+    E = engine(run)
+
+    def define_sets(E, **bound):
+        return _havoc_sets(E, bound['rdms'], bound['pattern_descriptor'], bound['rdm_descriptor'], bound['k_pattern'], bound['k_rdm'],
+                           k=None)
+    E.contracts[CVS + 'sets_k_fold'] = Contract(CVS + 'sets_k_fold', define=define_sets,
+                                                doc='havoc: any (train, test, ceil) lists of [RDMs, indices] pairs (own contract: C05)')
+    E.func_ret[EV + 'crossval'] = 'Result'
+    E.schemas['Result'] = {'evaluations': 'val'}
+    return E
+
+
+def check_internal_cv(run, E):
+    """_internal_cv: folds come from sets_k_fold(sample, the caller's descriptors and fold counts, random=True); the noise
+    ceiling is the cross-validated one of those folds (before the index expansion) when something is cross-validated, else the
+    leave-one-GROUP-out ceiling of the sample with the caller's rdm_descriptor; every fold's pattern indices are expanded to
+    the bootstrap multiplicities (_concat_sampling with the drawn indices); crossval gets exactly these folds, the caller's
+    method / fitter / pattern_descriptor and no ceiling computation; its evaluations and that ceiling are returned"""
+    for kcase in ('cv', 'no-cv'):
+        ck = FuncCheck(E, run, 'C04', EV + '_internal_cv', kcase)
+
+        def mk(E, kcase=kcase):
+            kp, kr = (E.sym_int('k_pattern'), E.sym_int('k_rdm')) if kcase == 'cv' else (1, 1)
+            args = [E.sym_list('models', 'Model'), E.sym_obj('sample', 'RDMs'), E.sym_val('pd', tag='scalar'), E.sym_val('rd', tag='scalar'),
+                    E.sym_val('pattern_idx', tag='ndarray'), kp, kr, E.sym_val('method', tag='scalar'), E.sym_val('fitter')]
+            assume = [kp.z >= 1, kr.z >= 1, z3.Or(kp.z > 1, kr.z > 1)] if kcase == 'cv' else []
+            return args, {}, assume
+
+        def post(ck, E, args, kw, p, kcase=kcase):
+            models, sample, pd, rd, pidx, kp, kr, method, fitter = args
+            res = p.value
+            ok = isinstance(res, tuple) and len(res) == 2
+            ck.ensure('post/returns-(evaluations,noise-ceiling)', z3.BoolVal(ok), structure=True)
+            if not ok:
+                return
+            evals, nc = res
+            train, test, ceil = _havoc_sets(E, sample, pd, rd, kp, kr, k=0, idxs=[])
+            if kcase == 'cv':
+                want_nc = call_repo(E, NC + 'cv_noise_ceiling', sample, ceil, test, method=method, pattern_descriptor=pd)
+            else:
+                want_nc = boot_nc(E, sample, method, rd)
+            ck.ensure_eq('post/noise-ceiling-of-the-same-folds-or-leave-one-group-out', nc, want_nc)
+            a = peel(evals, 'attr.evaluations')
+            cv = a[0] if a else None
+            b = peel(cv, EV + 'crossval') if cv is not None else None
+            ck.ensure('post/evaluations-come-from-crossval', z3.BoolVal(b is not None), structure=True,
+                      note=f'evaluations: {getattr(evals, "app", None) and evals.app[0]}')
+            if b is None:
+                return
+            fv = E.find_function(EV + 'crossval')
+            got = dict(zip([x.arg for x in fv.node.args.args], b))
+            ck.ensure_eq('post/crossval-gets-the-models', got['models'], models)
+            ck.ensure_eq('post/crossval-gets-the-resample', got['rdms'], sample)
+            for nm, v in (('method', method), ('fitter', fitter), ('pattern_descriptor', pd)):
+                ck.ensure_eq(f'post/crossval-gets-the-callers-{nm}', got[nm], v)
+            ck.ensure_eq('post/crossval-computes-no-ceiling-itself', got['calc_noise_ceil'], False)
+            for nm, src in (('train_set', train), ('test_set', test)):
+                lst = got[nm]
+                okl = isinstance(lst, SeqV)
+                ck.ensure(f'post/{nm}-is-the-generated-list', z3.BoolVal(okl) if not okl else lst.zlen() == src.zlen())
+                if not okl:
+                    continue
+                f = z3.Int(fresh_name('fold'))
+                in_f = z3.And(f >= 0, f < src.zlen())
+                el, so = E.seq_elem(lst, f), E.seq_elem(src, f)
+                cases = el.cases if isinstance(el, CaseV) else [(z3.BoolVal(True), el)]
+                for g, e1 in cases:
+                    okp = isinstance(e1, SeqV) and e1.items is not None and len(e1.items) == 2
+                    ck.ensure(f'post/{nm}-entries-are-[rdms,indices]-pairs', z3.BoolVal(okp))
+                    if not okp:
+                        continue
+                    ck.ensure(f'post/{nm}-keeps-the-fold-object', z3.Implies(z3.And(in_f, g), E.veq(e1.items[0], so.items[0])))
+                    want_idx = call_repo(E, EV + '_concat_sampling', pidx, so.items[1])
+                    ck.ensure(f'post/{nm}-indices-expanded-to-the-bootstrap-multiplicities',
+                              z3.Implies(z3.And(in_f, g), E.veq(e1.items[1], want_idx)))
+        ck.execute(mk, post=post, allow_raise=lambda *a: None)
+        yield ck
+
+
+BOOTCV = {'both': dict(sampler=BS + 'bootstrap_sample', cv_method='bootstrap_crossval'),
+          'pattern': dict(sampler=BS + 'bootstrap_sample_pattern', cv_method='bootstrap_crossval_pattern'),
+          'rdm': dict(sampler=BS + 'bootstrap_sample_rdm', cv_method='bootstrap_crossval_rdm')}
+
+
+def check_bootcv(run, E):
+    """bootstrap_crossval: for every draw i (havoc) with enough distinct groups (>= k_rdm RDM groups and >= 3 k_pattern condition
+    groups) and every repetition c, evaluations[i, :, :, c] and noise_ceil[:, i, c] are what _internal_cv returns for THAT resample
+    with the drawn condition indices and the caller's descriptors / fold counts / method / fitter; too small draws are NaN
+    everywhere; dof = resampled groups - 1 (the smaller), cv_method and the unit counts follow the boot_type"""
+    E.contracts[EV + '_internal_cv'] = Contract(EV + '_internal_cv', random=True, ret=('ndarray', 'ndarray'),
+                                                doc='havoc: any outcome of the random fold assignment (own contract above)')
+    for bt, cfg in BOOTCV.items():
+        ck = FuncCheck(E, run, 'C04', EV + 'bootstrap_crossval', f'boot_type={bt}')
+
+        def mk(E, bt=bt):
+            models = E.sym_list('models', 'Model')
+            kw = dict(method=E.sym_val('method', tag='scalar'), fitter=E.sym_val('fitter'), k_pattern=E.sym_int('k_pattern'),
+                      k_rdm=E.sym_int('k_rdm'), N=E.sym_int('N'), n_cv=E.sym_int('n_cv'), pattern_descriptor=E.sym_val('pd', tag='scalar'),
+                      rdm_descriptor=E.sym_val('rd', tag='scalar'), boot_type=bt, use_correction=False)
+            assume = [kw['k_pattern'].z >= 1, kw['k_rdm'].z >= 1, kw['N'].z >= 2, kw['n_cv'].z >= 1, models.zlen() >= 1]
+            return [models, E.sym_obj('data', 'RDMs')], kw, assume
+
+        def post(ck, E, args, kw, p, bt=bt, cfg=cfg):
+            models, data = args
+            res = p.value
+            method, fitter, pd, rd = kw['method'], kw['fitter'], kw['pattern_descriptor'], kw['rdm_descriptor']
+            kp, kr, N, ncv = kw['k_pattern'], kw['k_rdm'], kw['N'].z, kw['n_cv'].z
+            ev, nc = res.fields['evaluations'], res.fields['noise_ceiling']
+            ok = isinstance(ev, ArrV) and len(ev.shape) == 4 and isinstance(nc, ArrV) and len(nc.shape) == 3
+            ck.ensure('post/result-arrays-are-(N,models,folds,n_cv)-and-(2,N,n_cv)', z3.BoolVal(ok) if not ok else z3.And(
+                ev.shape[0] == N, ev.shape[1] == models.zlen(), ev.shape[2] == kp.z * kr.z, ev.shape[3] == ncv,
+                nc.shape[0] == 2 if z3.is_expr(nc.shape[0]) else z3.BoolVal(nc.shape[0] == 2), nc.shape[1] == N, nc.shape[2] == ncv))
+            if not ok:
+                return
+            a, c = z3.Int(fresh_name('smp')), z3.Int(fresh_name('rep'))
+            E.pc.append(z3.And(a >= 0, a < N, c >= 0, c < ncv))
+            p.pc = list(E.pc)
+            if bt == 'both':
+                S, R, P = E.havoc(cfg['sampler'], [data, rd, pd], SAMPLERS[cfg['sampler']], k=0, idxs=[a])
+            elif bt == 'pattern':
+                S, P = E.havoc(cfg['sampler'], [data, pd], SAMPLERS[cfg['sampler']], k=0, idxs=[a])
+                R = E.lib['numpy.unique'](E, E.getitem(E.getattr(data, 'rdm_descriptors'), rd))
+            else:
+                S, R = E.havoc(cfg['sampler'], [data, rd], SAMPLERS[cfg['sampler']], k=0, idxs=[a])
+                P = E.lib['numpy.unique'](E, E.getitem(E.getattr(data, 'pattern_descriptors'), pd))
+            usable = z3.And(n_unique(E, R) >= kr.z, n_unique(E, P) >= 3 * kp.z)
+            evals, cvnc = E.havoc(EV + '_internal_cv', [models, S, pd, rd, P, kp, kr, method, fitter], ('ndarray', 'ndarray'),
+                                  k=0, idxs=[a, c])
+            want_e = CaseV([(usable, E.getitem(evals, 0)), (z3.Not(usable), NAN)])
+            ck.ensure_eq('post/evaluations-of-draw-i-repetition-c-are-the-cross-validation-of-that-resample',
+                         E.select(ev, (a, None, None, c)), want_e)
+            want_n = CaseV([(usable, cvnc), (z3.Not(usable), NAN)])
+            ck.ensure_eq('post/noise-ceiling-of-the-same-resample-and-folds', E.select(nc, (None, a, c)), want_n)
+            g_r = n_groups(E, data, 'rdm_descriptors', rd)
+            g_p = n_groups(E, data, 'pattern_descriptors', pd)
+            want_dof = {'both': z3.If(g_r < g_p, g_r, g_p) - 1, 'pattern': g_p - 1, 'rdm': g_r - 1}[bt]
+            ck.ensure('post/dof-is-resampled-groups-minus-one', E.as_int(res.fields['dof']) == want_dof)
+            ck.ensure_eq('post/cv_method', res.fields['cv_method'], cfg['cv_method'])
+            ck.ensure_eq('post/method', res.fields['method'], method)
+            ck.ensure_eq('post/models', res.fields['models'], models)
+            ck.ensure_eq('post/n_rdm', res.fields['n_rdm'], None if bt == 'pattern' else E.getattr(data, 'n_rdm'))
+            ck.ensure_eq('post/n_pattern', res.fields['n_pattern'], None if bt == 'rdm' else E.getattr(data, 'n_cond'))
+        ck.execute(mk, post=post, allow_raise=lambda *a: None)
+        yield ck
+    del E.contracts[EV + '_internal_cv']
+
+
 def run(run):
     E = engine(run)
     fails = []
     for gen in (check_bootstrap, check_crossval, check_fixed):
         for ck in gen(run, E):
             fails += ck.failed
+    Ecv = engine_cv(run)
+    for ck in check_internal_cv(run, Ecv):
+        fails += ck.failed
+    for ck in check_bootcv(run, engine(run)):
+        fails += ck.failed
     finish_engine(E, run)
     bds = []
     try:
